@@ -415,3 +415,94 @@ def verify_function(world, contract, report=None, only_cfg=None, scope=None):
             rep.obligations.extend(ctx.obls)
     rep.seconds = time.time() - t0
     return rep
+
+
+class FragmentContract(Contract):
+    """contract on a fragment of a function: the body of the loop with the given ordinal, executed once
+    from an arbitrary state described by make_env (sound for "every iteration does exactly this";
+    how often and for which values the loop runs is outside the fragment's contract)."""
+    loop_ordinal = None
+    is_fragment = True
+
+    def make_env(self, cfg, A):
+        raise NotImplementedError
+
+    def post_env(self, before, after, outcome, cfg):
+        return []
+
+
+def verify_fragment(world, contract, report=None, only_cfg=None, scope=None):
+    from .interp import Frame, loop_ordinals, _Continue, _Break, _Return
+    import ast as _ast
+    t0 = time.time()
+    rep = report or FunctionReport(contract.qualname)
+    short = contract.qualname.replace('tangermeme.', '') + '#loop%d-body' % contract.loop_ordinal
+    try:
+        pyfn = world.bind.resolve(contract.qualname)
+        fd = world.bind.function_ast(pyfn)
+    except (BindError, ImportError, AttributeError) as e:
+        rep.unsupported.append(('bind', str(e)))
+        return rep
+    ids = loop_ordinals(fd)
+    node = None
+    for n in _ast.walk(fd):
+        if isinstance(n, (_ast.For, _ast.While)) and ids.get(id(n)) == contract.loop_ordinal:
+            node = n
+    if node is None:
+        rep.unsupported.append(('bind', 'loop %d not found' % contract.loop_ordinal))
+        return rep
+    for cfg in contract.configs():
+        cname = contract.cfg_name(cfg)
+        if only_cfg is not None and cname != only_cfg:
+            continue
+        rep.configs.append(cname)
+        work = [[]]
+        while work:
+            prefix = work.pop()
+            ctx = Ctx(prefix, fname='%s[%s]' % (short, cname), opts={'small_scope': scope is not None})
+            ctx.modifies = set(contract.modifies)
+            ctx.frame_checked = False
+            interp = Interp(ctx, world)
+            outcome = None
+            try:
+                A = ArgFactory(ctx, scope)
+                env = contract.make_env(cfg, A)
+                before = NS(**{k: freeze(v) for k, v in env.items()})
+                fr = Frame(interp, dict(env), pyfn, contract.qualname)
+                fr.loop_ids = ids
+                if world.is_numba(pyfn, fd):
+                    ctx.safety = True
+                try:
+                    fr.block(node.body)
+                    outcome = 'completed'
+                except _Continue:
+                    outcome = 'continue'
+                except _Break:
+                    outcome = 'break'
+                except SymRaise as e:
+                    outcome = 'raise:' + e.kind
+            except PathEnd:
+                outcome = None
+            except Unsupported as e:
+                rep.unsupported.append((cname, str(e)))
+                work.extend(ctx.pending)
+                rep.obligations.extend(ctx.obls)
+                continue
+            work.extend(ctx.pending)
+            rep.trusted |= ctx.trusted
+            if outcome is not None:
+                rep.paths += 1
+                if outcome.startswith('raise'):
+                    rep.raises += 1
+                else:
+                    rep.returns += 1
+                pid = ''.join('1' if d else '0' for d in ctx.taken) or 'e'
+                try:
+                    after = NS(**fr.env)
+                    for label, f in contract.post_env(before, after, outcome, cfg):
+                        ctx.oblige('p%s/ensures:%s' % (pid, label), f, 'ensures')
+                except Unsupported as e:
+                    rep.unsupported.append((cname, 'contract evaluation: ' + str(e)))
+            rep.obligations.extend(ctx.obls)
+    rep.seconds = time.time() - t0
+    return rep
